@@ -54,14 +54,12 @@ func spzDecode(c *run.Ctx) (res run.Result) {
 	return
 }
 
-// maxJudgedFractionalBits: the header field is a byte. polyform computes the version-2
-// position scale as 1/float64(1<<bits) in a 64-bit int: exact 2^-bits for 0…62, the NEGATED
-// scale for 63 (1<<63 is the most negative int) and +Inf for 64…255 (the shift yields 0);
-// the published decoder shifts a 32-bit int and is undefined from 31 on. Version-2
-// positions are judged for 0…62, where the unchanged decode is finite and equals
-// fixed·2^-bits exactly; for 63…255 they are only counted. Everything else of such a
-// stream (and version-1 positions, which ignore the field) is judged as usual.
-const maxJudgedFractionalBits = 62
+// maxJudgedFractionalBits: the header field is a byte, and the dequantised version-2
+// position is fixed·2^-bits for every value of it (exact in float64: |fixed| < 2^23 and
+// 2^-255 is a normal number). Up to polyform 623b830 the scale was 1/float64(1<<bits) in a
+// 64-bit int: negated at 63, ±Inf/NaN from 64 on (repaired by "fix: spz position scale for
+// fractional bits of 63 and more"); the whole byte range is judged since then.
+const maxJudgedFractionalBits = 255
 
 func drawFractionalBits(r *rand.Rand) uint8 {
 	switch u := r.Intn(20); {
@@ -261,6 +259,12 @@ func checkSPZFrom(c *run.Ctx, res *run.Result, s *splatref.SPZ, in io.Reader, ki
 		res.Count("spz/v2_positions_judged", int64(3*n))
 		if fb >= 32 {
 			res.Count("spz/v2_positions_judged/fractional_bits_32-62", int64(3*n))
+		}
+		if fb == 63 {
+			res.Count("spz/v2_positions_judged/fractional_bits_63", int64(3*n))
+		}
+		if fb >= 64 {
+			res.Count("spz/v2_positions_judged/fractional_bits_64-255", int64(3*n))
 		}
 	}
 	res.Count("spz/sh_coefficients_compared", int64(n*dim*3))
